@@ -416,3 +416,21 @@ Lemma reannounced_witness :
   /\ chk_C03 ex_ifs reann_hist (run_history ex_ifs reann_hist) = true
   /\ chk_C03_last ex_ifs reann_hist (run_history ex_ifs reann_hist) = false.
 Proof. repeat split; vm_compute; reflexivity. Qed.
+
+(* round 8: the class of C04-last-second-refresh-not-new as a predicate on histories
+   (known_refresh_completes: a delivery that is not reported as new turns a browsed instance
+   strongly alive), its witness, and non-vacuity of the completeness theorem *)
+Lemma refresh_completes_witness :
+  wf_history lastsec_hist = true /\ safe_class ex_ifs lastsec_hist = true /\ fresh_channels lastsec_hist = true
+  /\ known_refresh_completes ex_ifs lastsec_hist = true
+  /\ existsb is_complete_fail (viol_C04 ex_ifs lastsec_hist (ex_wakes lastsec_hist) (map obs_of (run_history ex_ifs lastsec_hist))) = true.
+Proof. repeat split; vm_compute; reflexivity. Qed.
+
+Lemma complete_example :
+  map (complete_class ex_ifs) [ex_hist; restart_hist; mixedcase_hist; quick_hist; brexp_hist; again_hist]
+  = [true; true; true; true; true; true]
+  /\ map (fun h => existsb (existsb is_resolved_evt) (run_history ex_ifs h))
+         [ex_hist; restart_hist; mixedcase_hist; quick_hist; brexp_hist; again_hist]
+     = [true; true; true; true; true; true]
+  /\ map (complete_class ex_ifs) [lastsec_hist; srvtgt_hist] = [false; false].
+Proof. repeat split; vm_compute; reflexivity. Qed.
